@@ -26,6 +26,7 @@ func VxC13_Repeat() {
 	y := append(VxStmtTable.Toks(2), VxEOF)
 	VxNoteToks(x)
 	_, e1 := NewParser().Parse(x)
+	c0, m0, l0, ok0 := vxErrKey(e1) // what the caller saw when the error was handed out
 	// something else in between: another input through the entry point that tracks positions
 	pos := make([]TokenPosition, len(y))
 	for j := range y {
@@ -33,9 +34,15 @@ func VxC13_Repeat() {
 	}
 	_, _ = NewParser().ParseWithPositions(&ConversionResult{Tokens: append([]token.Token{}, y...), PositionMapping: pos})
 	_, e2 := NewParser().Parse(x)
+	_, e3 := NewParser().ParseContext(vxNeverCtx(), x)
+	c3, m3, l3, ok3 := vxErrKey(e3)
 	c1, m1, l1, ok1 := vxErrKey(e1)
 	c2, m2, l2, ok2 := vxErrKey(e2)
+	vx.Assertf("C13.repeat_error_not_modified", ok0 == ok1 && c0 == c1 && m0 == m1 && l0 == l1, "an error already returned changed afterwards: %s %q at %d:%d became %s %q at %d:%d", c0, m0, l0.Line, l0.Column, c1, m1, l1.Line, l1.Column)
 	vx.Assertf("C13.repeat_same_verdict", (e1 == nil) == (e2 == nil) && ok1 == ok2, "the same input is accepted once and rejected once")
+	if ok2 && ok3 {
+		vx.Assertf("C13.repeat_same_error", c2 == c3 && m2 == m3 && l2 == l3, "Parse and ParseContext disagree on the same input after the same history: %s at %d:%d vs %s at %d:%d", c2, l2.Line, l2.Column, c3, l3.Line, l3.Column)
+	}
 	if ok1 && ok2 {
 		vx.Assertf("C13.repeat_same_error", c1 == c2 && m1 == m2 && l1 == l2, "same input, two answers: %s %q at %d:%d, then %s %q at %d:%d", c1, m1, l1.Line, l1.Column, c2, m2, l2.Line, l2.Column)
 	}
